@@ -48,7 +48,7 @@ reg("C15", ["c15_endian.c"],
          "and 24 bit (16 bit at every alignment 0..7), 32 bit strided by 211 (quick) or all 2^32 (thorough), wider: "
          "every octet lane x every octet value x 3 fills x 8 alignments, all one- and two-bit patterns and their "
          "complements, boundaries, float classes incl. NaN payloads, seeded random; plus exact-size poisoned-arena "
-         "objects; the unsigned 24/40/48/56-bit setters also get containers with mixed bits above the width. Swaps: all 16/24-bit values, strided/all 32-bit, lanes+bits+random for wider, and constant expressions with |, ^, ?: at top level as arguments. Range predicates: "
+         "objects; the unsigned 24/40/48/56-bit setters also get containers with mixed bits above the width. Swaps: all 16/24-bit values, strided/all 32-bit, lanes+bits+random for wider, and constant expressions with |, ^, ?: at top level as arguments. Every codec unit probes stores and loads on caller objects that are not character arrays (uint16_t words, uint32_t, float, double) inside one non-inlined function each. Range predicates: "
          "2^i +- 3, extremes, random magnitudes. A signature is (codec or helper, chunk); evaluations counts single "
          "store+load (or swap, predicate) comparisons.",
     assumptions=["a value that does not fit the width of an unsigned 24/40/48/56-bit setter is stored modulo 2^width: the header says the argument may hold such values and is not checked, and the library's own signed setters hand sign-extended values to the unsigned ones"],
@@ -232,7 +232,8 @@ reg("C01", ["c01_typed.c"],
          "(count, count+1, 8, 16, 0xff, 0xffff, 2^16+count, 2^31, 2^32-1, ...) through register_set with a value of "
          "every type, register_set_unsafe and register_get, storage compared after each. Behind callbacks every 16th "
          "acceptable value meets a device that refuses one word of the register (set must fail, nothing stored), and a "
-         "refused set must not have called the write callback. A signature "
+         "refused set must not have called the write callback; every fourth get behind a callback meets a device that "
+         "serves register-shaped reads only. A signature "
          "is a configuration; evaluations counts values set.",
     assumptions=["for a callback-backed area 'storage unchanged' is read as 'the write callback is not invoked': a refused set (C01), a refused block write (C02) and any block read (C03) must not write the device, not even words that are taken back afterwards"],
     exhaustive={"quick": "all values of 16-bit registers in every configuration",
@@ -244,9 +245,9 @@ RT_FAMILY = ("tables from the small-scope family (seeded by index): 1-3 areas wi
              "predecessor, a third of those a mere reservation of addresses with neither callbacks nor memory, a fifth an "
              "area of size zero; every second callback-backed area written field by field also carries a memory "
              "pointer of its own that its callbacks scribble over; the "
-             "first twenty-four units of C02, C03 and C05 and the first twenty-four descriptions of every C04 unit use curated "
+             "first thirty units of C02, C03 and C05 and the first thirty descriptions of every C04 unit use curated "
              "layouts instead: register-less areas behind, in front of and between populated ones, long dense areas, "
-             "reserved windows at address 0 and between populated areas, zero-sized areas on the seams, everything adjacent; every second "
+             "reserved windows at address 0 and between populated areas, zero-sized areas on the seams, four, five and eight areas, everything adjacent; every second "
              "table is written with the REG_* / MAKE_*_AREA macros of register-table.h), gaps {0,0,1,3}; flags RW / "
              "read-only / write-only / skip-defaults; memory- or callback-backed "
              "(some callback areas without write callback); 16/32/64-bit unsigned, signed and float registers at every "
@@ -270,7 +271,7 @@ reg("C03", ["c03_blockread.c"],
     rule="units = " + RT_FAMILY + " (400 tables quick, 6000 thorough). Per table (storage filled out of band with "
          "distinct words): the uninitialised table is probed first; then every address from two words below the "
          "lowest base to two above the highest end x every length 0..span+3: one block read into an exact-size "
-         "poisoned-arena buffer (windows without holes also through register_block_read_unsafe), one iteration with an always-continue callback and, for each of the first four "
+         "poisoned-arena buffer (windows without holes also through register_block_read_unsafe; every fifth read with a device word that cannot be read), one iteration with an always-continue callback and, for each of the first four "
          "callback positions k, iterations stopped at call k by a positive and by a negative result; finally the "
          "whole-table idioms foreach(0, ADDRESS_MAX). A signature is a table; evaluations counts reads and "
          "iterations judged.",
